@@ -176,9 +176,13 @@ def compute_weight(path: InfPath, interfaces: List[float], move: str) -> float:
         )
         weight = 1.0 * wf_weight
 
-    if path.get_start_point(
-        interfaces[0], interfaces[2]
-    ) != path.get_end_point(interfaces[0], interfaces[2]):
+    # double the weight of paths that connect the two outer sides. An end
+    # point between the interfaces is "?" / None, which must not count.
+    ends = {
+        path.get_start_point(interfaces[0], interfaces[2]),
+        path.get_end_point(interfaces[0], interfaces[2]),
+    }
+    if ends == {"L", "R"}:
         if move in ("ss", "wf"):
             weight *= 2
 
